@@ -12,7 +12,7 @@ CHECKS = {
                 text="RefSem.tla (ordered-backtracking reference semantics) decides every (pattern, text, offset) cell of the spec-exported "
                      "spaces; TLC recomputes Search for every cell and requires exactly the rows recorded from the real engine (trace "
                      "validation of API records), exhaustively up to the node/text bounds plus contexts x fillers and seeded random patterns.",
-                note="Bounded: node bound of Gram!P, text length bound, alphabet of 6 symbols. " + TCB + ". Unbounded repeats of nullable bodies are excluded (finding F1, probed by witness).",
+                note="Bounded: node bound of Gram!P, text length bound, alphabet of 6 symbols. " + TCB + ". Patterns with unbounded repeats of nullable bodies (class of finding F1, probed by witness) are compared with the design model (Compile.tla program run by VM.tla) instead of RefSem where the loop is run by the VM, and left unjudged where a delegated piece is of the class.",
                 technique="TLA+ reference semantics evaluated by TLC + trace validation of recorded search results"),
     "C02": dict(level="model_checking", ref="6 C02",
                 text="As C01 with every capture group of every match compared against the reference match path (last iteration, None for "
